@@ -200,6 +200,22 @@ Proof.
   intros ->. discriminate.
 Qed.
 
+(* component names may also contain dashes (non-free, debian-installer) *)
+Definition csafe_char (a : ascii) : bool := safe_char a || Ascii.eqb a "-"%char.
+Fixpoint csafe (s : string) : bool :=
+  match s with EmptyString => true | String a r => csafe_char a && csafe r end.
+Lemma csafe_no_char x s : csafe s = true -> csafe_char x = false -> has_char x s = false.
+Proof.
+  intros Hs Hx. induction s as [|a r IH]; [reflexivity|]. cbn in *. apply andb_prop in Hs as [Ha Hr].
+  rewrite (IH Hr), orb_false_r. destruct (Ascii.eqb a x) eqn:E; [|reflexivity].
+  apply Ascii.eqb_eq in E. subst. congruence.
+Qed.
+Lemma csafe_good s : csafe s = true -> s <> EmptyString -> good_seg s.
+Proof.
+  intros Hs Hne. split; [apply csafe_no_char; [exact Hs|reflexivity]|]. split; [exact Hne|].
+  intros ->. discriminate.
+Qed.
+
 Lemma any_in_mem L s a : (forall a', In a' L -> contains a' s = String.eqb a a') -> any_in L s = string_mem a L.
 Proof.
   intros H. unfold any_in. induction L as [|x r IH]; [reflexivity|]. cbn [existsb string_mem].
@@ -212,6 +228,79 @@ Proof.
 Qed.
 Lemma any_in_app L1 L2 s : any_in (L1 ++ L2) s = any_in L1 s || any_in L2 s.
 Proof. unfold any_in. apply existsb_app. Qed.
+
+(* ---------------------------------------------------------------- what the proofs need of a component name *)
+Definition lead_dirs : list string := ["source/"; "binary-"; "cnf/"; "dep11/"; "i18n/"].
+Record comp_like (c : string) : Prop := {
+  cl_allowed : forall cfg d f, good_seg d -> good_seg f ->
+               allowed cfg (path3 c d f) = allowed_body cfg (path3 c d f) f c;
+  cl_lead : forall t d f, In t lead_dirs -> has_char slash d = false -> has_char slash f = false ->
+            contains (String slash t) (path3 c d f) = String.prefix t (d +++ String slash f) || String.prefix t f;
+  cl_dashall : contains "-all" c = false;
+  cl_C : has_char "C"%char c = false;
+  cl_dot : has_char "."%char c = false }.
+
+Lemma comp_like_top c : csafe c = true -> c <> EmptyString -> contains "-all" c = false -> comp_like c.
+Proof.
+  intros Hs Hne Hda. pose proof (csafe_good c Hs Hne) as G. constructor.
+  - intros cfg d f Hd Hf. apply allowed_path3; assumption.
+  - intros t d f _ Hd Hf. apply contains3_lead; [exact (proj1 G)|exact Hd|exact Hf].
+  - exact Hda.
+  - apply csafe_no_char; [exact Hs|reflexivity].
+  - apply csafe_no_char; [exact Hs|reflexivity].
+Qed.
+
+(* a nested component <c1>/<c2> (main/debian-installer) *)
+Definition nested_comp (c1 c2 : string) : string := c1 +++ String slash c2.
+
+Lemma comp_like_nested c1 c2 :
+  csafe c1 = true -> c1 <> EmptyString -> csafe c2 = true -> c2 <> EmptyString ->
+  ~ In c2 ["source"; "cnf"; "dep11"; "i18n"] -> String.prefix "binary-" c2 = false ->
+  contains "-all" c1 = false -> contains "-all" c2 = false ->
+  comp_like (nested_comp c1 c2).
+Proof.
+  intros H1 N1 H2 N2 Hres Hbin Hd1 Hd2.
+  pose proof (csafe_good c1 H1 N1) as G1. pose proof (csafe_good c2 H2 N2) as G2.
+  assert (S1 : has_char slash c1 = false) by (exact (proj1 G1)).
+  assert (S2 : has_char slash c2 = false) by (exact (proj1 G2)).
+  assert (Shape : forall d f, path3 (nested_comp c1 c2) d f = c1 +++ String slash (path3 c2 d f)).
+  { intros d f. unfold path3, nested_comp. rewrite sapp_assoc'. reflexivity. }
+  constructor.
+  - intros cfg d f Hd Hf. rewrite Shape. unfold allowed.
+    assert (Hp : parse (c1 +++ String slash (path3 c2 d f)) = {| pabs := false; parts := [c1; c2; d; f] |}).
+    { unfold parse, path3. rewrite (prefix_slash_good c1 _ G1).
+      rewrite (split_seg c1 _ S1), (split_seg c2 _ S2), (split_seg d _ (proj1 Hd)), (split_last f (proj1 Hf)).
+      cbn [filter]. rewrite (keep_good c1 G1), (keep_good c2 G2), (keep_good d Hd), (keep_good f Hf). reflexivity. }
+    rewrite Hp.
+    change (render {| pabs := false; parts := [c1; c2; d; f] |}) with (c1 +++ String slash (path3 c2 d f)).
+    change (pname {| pabs := false; parts := [c1; c2; d; f] |}) with f.
+    assert (Hcnt : count_char ch_slash (c1 +++ String slash (path3 c2 d f)) = 3).
+    { rewrite count_slash_app, (count_slash_none c1 S1), (count_path3 c2 d f G2 Hd Hf). reflexivity. }
+    rewrite Hcnt.
+    assert (Hfc : file_component (c1 +++ String slash (path3 c2 d f)) = nested_comp c1 c2).
+    { unfold file_component. rewrite Hcnt. unfold path3.
+      rewrite (split_seg c1 _ S1), (split_seg c2 _ S2), (split_seg d _ (proj1 Hd)), (split_last f (proj1 Hf)). reflexivity. }
+    rewrite Hfc. reflexivity.
+  - intros t d f Ht Hd Hf. rewrite Shape. rewrite (contains_lead slash t c1 _ S1).
+    rewrite (contains3_lead t c2 d f S2 Hd Hf).
+    assert (E : String.prefix t (path3 c2 d f) = false).
+    { unfold path3. cbn in Ht. destruct Ht as [<-|[<-|[<-|[<-|[<-|[]]]]]].
+      - change "source/" with ("source" +++ String slash EmptyString). rewrite (prefix_dir "source" c2 _ eq_refl S2).
+        destruct (String.eqb "source" c2) eqn:E; [|reflexivity]. apply String.eqb_eq in E. exfalso. apply Hres. cbn. tauto.
+      - rewrite (sprefix_sep slash "binary-" c2 _ eq_refl) by discriminate. exact Hbin.
+      - change "cnf/" with ("cnf" +++ String slash EmptyString). rewrite (prefix_dir "cnf" c2 _ eq_refl S2).
+        destruct (String.eqb "cnf" c2) eqn:E; [|reflexivity]. apply String.eqb_eq in E. exfalso. apply Hres. cbn. tauto.
+      - change "dep11/" with ("dep11" +++ String slash EmptyString). rewrite (prefix_dir "dep11" c2 _ eq_refl S2).
+        destruct (String.eqb "dep11" c2) eqn:E; [|reflexivity]. apply String.eqb_eq in E. exfalso. apply Hres. cbn. tauto.
+      - change "i18n/" with ("i18n" +++ String slash EmptyString). rewrite (prefix_dir "i18n" c2 _ eq_refl S2).
+        destruct (String.eqb "i18n" c2) eqn:E; [|reflexivity]. apply String.eqb_eq in E. exfalso. apply Hres. cbn. tauto. }
+    rewrite E. reflexivity.
+  - unfold nested_comp. rewrite (contains_sep slash "-all" c1 c2 eq_refl) by discriminate. rewrite Hd1, Hd2. reflexivity.
+  - unfold nested_comp. rewrite has_char_app. cbn [has_char].
+    rewrite (csafe_no_char "C"%char c1 H1 eq_refl), (csafe_no_char "C"%char c2 H2 eq_refl). reflexivity.
+  - unfold nested_comp. rewrite has_char_app. cbn [has_char].
+    rewrite (csafe_no_char "."%char c1 H1 eq_refl), (csafe_no_char "."%char c2 H2 eq_refl). reflexivity.
+Qed.
 
 (* ---------------------------------------------------------------- names that do not collide *)
 Definition toks : list string :=
@@ -226,11 +315,12 @@ Definition play (cfg : list component) (k : kind) : list string :=
   all_arches cfg ++ match kind_arch k with Some a => [a] | None => [] end.
 
 Record names_ok (cfg : list component) (c : string) (k : kind) : Prop := {
-  ok_comp_safe : safe c = true;
+  ok_comp_safe : csafe c = true;
   ok_comp_ne : c <> EmptyString;
+  ok_comp_dashall : contains "-all" c = false;
   ok_comp_src : contains "source" c = false;
   ok_arch_clean : forall a, In a (play cfg k) -> clean_arch a = true;
-  ok_arch_comp : forall a, In a (play cfg k) -> contains a c = false;
+  ok_arch_comp : forall a, In a (flat_map carches cfg) -> contains a c = false;
   ok_arch_pair : forall a b, In a (play cfg k) -> In b (play cfg k) -> contains a b = String.eqb b a;
   ok_aux : match k with
            | KTranslation l => safe l = true /\ l <> EmptyString
@@ -349,16 +439,15 @@ Lemma plain_Sources_bz2 : plain_file "Sources.bz2". Proof. plain_lit2 "Sources" 
 (* ---------------------------------------------------------------- <comp>/binary-<a>/<plain file> *)
 Section BinaryDir.
   Context (cfg : list component) (c a f : string).
-  Context (Hcs : safe c = true) (Hcne : c <> EmptyString) (Hcsrc : contains "source" c = false).
+  Context (Hc : comp_like c) (Hcsrc : contains "source" c = false).
   Context (Ha : clean_arch a = true).
   Context (Hall : forall a', In a' (all_arches cfg) -> clean_arch a' = true).
-  Context (Hcomp : forall a', In a' (all_arches cfg) -> contains a' c = false).
+  Context (Hcomp : forall a', In a' (flat_map carches cfg) -> contains a' c = false).
   Context (Hpair : forall a', In a' (all_arches cfg) -> contains a' a = String.eqb a a').
   Context (Hf : plain_file f).
 
   Let d := "binary-" +++ a.
 
-  Lemma bd_good_c : good_seg c. Proof. apply safe_good; assumption. Qed.
   Lemma bd_slash_d : has_char slash d = false.
   Proof. unfold d. rewrite has_char_app, (safe_no_slash a (proj1 (clean_safe a Ha))). reflexivity. Qed.
   Lemma bd_good_d : good_seg d.
@@ -367,14 +456,14 @@ Section BinaryDir.
   Lemma bd_binary : contains "/binary-" (path3 c d f) = true.
   Proof.
     change "/binary-" with (String slash "binary-").
-    rewrite (contains3_lead "binary-" c d f (proj1 bd_good_c) bd_slash_d (proj1 (pf_good f Hf))).
+    rewrite (cl_lead c Hc "binary-" d f ltac:(cbn; tauto) bd_slash_d (proj1 (pf_good f Hf))).
     unfold d. rewrite sapp_assoc', sprefix_self_app. reflexivity.
   Qed.
 
   Lemma bd_source_dir : contains "/source/" (path3 c d f) = false.
   Proof.
     change "/source/" with (String slash "source/").
-    rewrite (contains3_lead "source/" c d f (proj1 bd_good_c) bd_slash_d (proj1 (pf_good f Hf))).
+    rewrite (cl_lead c Hc "source/" d f ltac:(cbn; tauto) bd_slash_d (proj1 (pf_good f Hf))).
     rewrite (pf_p1 f Hf), orb_false_r. reflexivity.
   Qed.
 
@@ -387,11 +476,11 @@ Section BinaryDir.
     rewrite (clean_nosource a Ha). reflexivity.
   Qed.
 
-  Lemma bd_arch a' : In a' (all_arches cfg) -> contains a' (path3 c d f) = String.eqb a a'.
+  Lemma bd_arch a' : In a' (all_arches cfg) -> In a' (flat_map carches cfg) -> contains a' (path3 c d f) = String.eqb a a'.
   Proof.
-    intros Hin. pose proof (Hall a' Hin) as Hc'. destruct (clean_safe a' Hc') as [Hs' Hne'].
+    intros Hin Hin2. pose proof (Hall a' Hin) as Hc'. destruct (clean_safe a' Hc') as [Hs' Hne'].
     rewrite (contains3_noslash a' c d f (safe_no_slash a' Hs') Hne').
-    rewrite (Hcomp a' Hin), (pf_arch f Hf a' Hc'), orb_false_r. cbn [orb]. unfold d.
+    rewrite (Hcomp a' Hin2), (pf_arch f Hf a' Hc'), orb_false_r. cbn [orb]. unfold d.
     change ("binary-" +++ a) with ("binary" +++ String "-"%char a).
     rewrite (contains_sep "-"%char a' "binary" a (safe_no_dash a' Hs') Hne').
     rewrite (clean_tok a' "binary" Hc') by in_toks. cbn [orb]. apply Hpair. exact Hin.
@@ -401,7 +490,7 @@ Section BinaryDir.
   Proof.
     rewrite (contains3_noslash "-all" c d f eq_refl) by discriminate.
     rewrite (pf_all f Hf), orb_false_r.
-    rewrite (contains_absent "-"%char "-all" c eq_refl (safe_no_dash c Hcs)). cbn [orb]. unfold d.
+    rewrite (cl_dashall c Hc). cbn [orb]. unfold d.
     change ("binary-" +++ a) with ("binary" +++ String "-"%char a). change "-all" with (String "-"%char "all").
     rewrite (contains_lead "-"%char "all" "binary" a eq_refl).
     rewrite (contains_absent "-"%char (String "-"%char "all") a eq_refl (safe_no_dash a (proj1 (clean_safe a Ha)))), orb_false_r.
@@ -411,7 +500,7 @@ Section BinaryDir.
   Lemma bd_contents : contains "Contents-" (path3 c d f) = false.
   Proof.
     rewrite (contains3_noslash "Contents-" c d f eq_refl) by discriminate.
-    rewrite (pf_cont f Hf), orb_false_r, (contains_absent "C"%char "Contents-" c eq_refl (safe_no_C c Hcs)). cbn [orb].
+    rewrite (pf_cont f Hf), orb_false_r, (contains_absent "C"%char "Contents-" c eq_refl (cl_C c Hc)). cbn [orb].
     apply (contains_absent "C"%char); [reflexivity|]. unfold d. rewrite has_char_app, (safe_no_C a (proj1 (clean_safe a Ha))). reflexivity.
   Qed.
 
@@ -419,7 +508,7 @@ Section BinaryDir.
     allowed cfg (path3 c d f) =
     mirror_binaries cfg && found cfg c && (string_mem a (arches_of cfg c) || String.eqb a "all").
   Proof.
-    rewrite (allowed_path3 cfg c d f bd_good_c bd_good_d (pf_good f Hf)). unfold allowed_body.
+    rewrite (cl_allowed c Hc cfg d f bd_good_d (pf_good f Hf)). unfold allowed_body.
     rewrite bd_source_dir, (pf_p2 f Hf). cbn [orb]. rewrite andb_false_r.
     assert (Hany : any_in ["/binary-"; "/cnf/"; "/dep11/"; "/i18n/"] (path3 c d f) = true).
     { unfold any_in. cbn [existsb]. rewrite bd_binary. reflexivity. }
@@ -430,7 +519,8 @@ Section BinaryDir.
     rewrite any_in_app. unfold any_in at 2. cbn [existsb]. rewrite bd_dash_all, orb_false_r.
     rewrite (any_in_mem (carches comp) (path3 c d f) a).
     - destruct (string_mem a (carches comp) || String.eqb a "all"); reflexivity.
-    - intros a' Hin. apply bd_arch. eapply carches_in_all; [eapply find_component_in; exact EF|exact Hin].
+    - intros a' Hin. apply bd_arch; [eapply carches_in_all; [eapply find_component_in; exact EF|exact Hin]|].
+      apply in_flat_map. exists comp. split; [eapply find_component_in; exact EF|exact Hin].
   Qed.
 End BinaryDir.
 
@@ -453,26 +543,25 @@ Proof. intros H. destruct H. constructor; assumption. Qed.
 
 Section LiteralDir.
   Context (cfg : list component) (c D f : string).
-  Context (Hcs : safe c = true) (Hcne : c <> EmptyString).
+  Context (Hc : comp_like c).
   Context (HD : In D ["source"; "i18n"; "dep11"; "cnf"]).
   Context (Hf : aux_file f).
 
-  Lemma ld_good_c : good_seg c. Proof. apply safe_good; assumption. Qed.
   Lemma ld_good_D : good_seg D.
   Proof. cbn in HD. destruct HD as [<-|[<-|[<-|[<-|[]]]]]; (split; [reflexivity|split; discriminate]). Qed.
 
-  Lemma ld_dir w : has_char slash w = false ->
+  Lemma ld_dir w : In (w +++ String slash EmptyString) lead_dirs -> has_char slash w = false ->
     contains (String slash (w +++ String slash EmptyString)) (path3 c D f) =
     String.eqb w D || String.prefix (w +++ String slash EmptyString) f.
   Proof.
-    intros Hw. rewrite (contains3_lead _ c D f (proj1 ld_good_c) (proj1 ld_good_D) (proj1 (af_good f Hf))).
+    intros Hin Hw. rewrite (cl_lead c Hc _ D f Hin (proj1 ld_good_D) (proj1 (af_good f Hf))).
     rewrite (prefix_dir w D f Hw (proj1 ld_good_D)). reflexivity.
   Qed.
 
   Lemma ld_binary : contains "/binary-" (path3 c D f) = false.
   Proof.
     change "/binary-" with (String slash "binary-").
-    rewrite (contains3_lead "binary-" c D f (proj1 ld_good_c) (proj1 ld_good_D) (proj1 (af_good f Hf))).
+    rewrite (cl_lead c Hc "binary-" D f ltac:(cbn; tauto) (proj1 ld_good_D) (proj1 (af_good f Hf))).
     rewrite (af_p3 f Hf), orb_false_r.
     rewrite (sprefix_sep slash "binary-" D f eq_refl) by discriminate.
     cbn in HD. destruct HD as [<-|[<-|[<-|[<-|[]]]]]; reflexivity.
@@ -481,7 +570,7 @@ Section LiteralDir.
   Lemma ld_contents : contains "Contents-" (path3 c D f) = false.
   Proof.
     rewrite (contains3_noslash "Contents-" c D f eq_refl) by discriminate.
-    rewrite (af_cont f Hf), orb_false_r, (contains_absent "C"%char "Contents-" c eq_refl (safe_no_C c Hcs)). cbn [orb].
+    rewrite (af_cont f Hf), orb_false_r, (contains_absent "C"%char "Contents-" c eq_refl (cl_C c Hc)). cbn [orb].
     cbn in HD. destruct HD as [<-|[<-|[<-|[<-|[]]]]]; reflexivity.
   Qed.
 
@@ -489,13 +578,13 @@ Section LiteralDir.
     allowed cfg (path3 c D f) =
     (if String.eqb D "source" then mirror_source cfg else mirror_binaries cfg) && found cfg c.
   Proof.
-    rewrite (allowed_path3 cfg c D f ld_good_c ld_good_D (af_good f Hf)). unfold allowed_body.
+    rewrite (cl_allowed c Hc cfg D f ld_good_D (af_good f Hf)). unfold allowed_body.
     change "/source/" with (String slash ("source" +++ String slash EmptyString)).
     unfold any_in. cbn [existsb].
     change "/cnf/" with (String slash ("cnf" +++ String slash EmptyString)).
     change "/dep11/" with (String slash ("dep11" +++ String slash EmptyString)).
     change "/i18n/" with (String slash ("i18n" +++ String slash EmptyString)).
-    rewrite !ld_dir by reflexivity. rewrite ld_binary, ld_contents.
+    rewrite !ld_dir by (reflexivity || (cbn; tauto)). rewrite ld_binary, ld_contents.
     change ("source" +++ String slash "") with "source/". change ("cnf" +++ String slash "") with "cnf/".
     change ("dep11" +++ String slash "") with "dep11/". change ("i18n" +++ String slash "") with "i18n/".
     rewrite (af_p1 f Hf), (af_p2 f Hf), (af_p4 f Hf), (af_p5 f Hf), (af_p6 f Hf), (af_q1 f Hf), (af_q2 f Hf), (af_q3 f Hf).
@@ -599,7 +688,7 @@ Qed.
 (* ---------------------------------------------------------------- <comp>/dep11|cnf/<Prefix>-<a><tail> and <comp>/Contents-<a><tail> *)
 Section ArchFile.
   Context (cfg : list component) (c a f : string).
-  Context (Hcs : safe c = true) (Hcne : c <> EmptyString).
+  Context (Hcs : csafe c = true) (Hcne : c <> EmptyString).
   Context (Hall : forall a', In a' (all_arches cfg) -> clean_arch a' = true).
   Context (Hpair : forall a', In a' (all_arches cfg) -> contains a' a = String.eqb a a').
   Context (Hf : arch_file f a).
@@ -614,7 +703,7 @@ Section ArchFile.
 
   Lemma arch2_allowed : allowed cfg (path2 c f) = found cfg c && string_mem a (all_arches cfg).
   Proof.
-    pose proof (safe_good c Hcs Hcne) as Gc.
+    pose proof (csafe_good c Hcs Hcne) as Gc.
     rewrite (allowed_path2 cfg c f Gc (rf_good f a Hf)). unfold allowed_body.
     change "/source/" with (String slash "source/"). unfold any_in at 1. cbn [existsb].
     change "/binary-" with (String slash "binary-"). change "/cnf/" with (String slash "cnf/").
@@ -624,12 +713,20 @@ Section ArchFile.
     cbn [orb andb negb]. rewrite !andb_false_r. rewrite af_c4.
     assert (Hd : contains ".diff" (path2 c f) = false).
     { rewrite (contains2_noslash ".diff" c f eq_refl) by discriminate.
-      rewrite (rf_diff f a Hf), (contains_absent "."%char ".diff" c eq_refl (safe_no_dot c Hcs)). reflexivity. }
+      rewrite (rf_diff f a Hf), (contains_absent "."%char ".diff" c eq_refl (csafe_no_char "."%char c Hcs eq_refl)). reflexivity. }
     rewrite Hd, andb_false_r. cbn [andb]. unfold found.
     destruct (find_component cfg c); cbn [andb]; [|reflexivity].
     destruct (string_mem a (all_arches cfg)); reflexivity.
   Qed.
 
+End ArchFile.
+
+Section ArchFile3.
+  Context (cfg : list component) (c a f : string).
+  Context (Hc : comp_like c).
+  Context (Hall : forall a', In a' (all_arches cfg) -> clean_arch a' = true).
+  Context (Hpair : forall a', In a' (all_arches cfg) -> contains a' a = String.eqb a a').
+  Context (Hf : arch_file f a).
   Context (D : string) (HD : In D ["dep11"; "cnf"]).
 
   Lemma af_good_D : good_seg D.
@@ -638,17 +735,17 @@ Section ArchFile.
   Lemma arch3_allowed :
     allowed cfg (path3 c D f) = mirror_binaries cfg && found cfg c && string_mem a (all_arches cfg).
   Proof.
-    pose proof (safe_good c Hcs Hcne) as Gc. pose proof af_good_D as GD.
-    rewrite (allowed_path3 cfg c D f Gc GD (rf_good f a Hf)). unfold allowed_body.
+    pose proof af_good_D as GD.
+    rewrite (cl_allowed c Hc cfg D f GD (rf_good f a Hf)). unfold allowed_body.
     change "/source/" with (String slash "source/"). unfold any_in at 1. cbn [existsb].
     change "/binary-" with (String slash "binary-"). change "/cnf/" with (String slash "cnf/").
     change "/dep11/" with (String slash "dep11/"). change "/i18n/" with (String slash "i18n/").
-    rewrite !(contains3_lead _ c D f (proj1 Gc) (proj1 GD) (proj1 (rf_good f a Hf))).
+    rewrite !(fun t Hin => cl_lead c Hc t D f Hin (proj1 GD) (proj1 (rf_good f a Hf))) by (cbn; tauto).
     rewrite (rf_p1 f a Hf), (rf_p2 f a Hf), (rf_p3 f a Hf), (rf_p4 f a Hf), (rf_p5 f a Hf), (rf_p6 f a Hf).
-    rewrite !orb_false_r. rewrite af_c4.
+    rewrite !orb_false_r. rewrite (af_c4 cfg a f Hall Hpair Hf).
     assert (Hd : contains ".diff" (path3 c D f) = false).
     { rewrite (contains3_noslash ".diff" c D f eq_refl) by discriminate.
-      rewrite (rf_diff f a Hf), (contains_absent "."%char ".diff" c eq_refl (safe_no_dot c Hcs)).
+      rewrite (rf_diff f a Hf), (contains_absent "."%char ".diff" c eq_refl (cl_dot c Hc)).
       cbn in HD. destruct HD as [<-|[<-|[]]]; reflexivity. }
     rewrite Hd, andb_false_r. unfold found.
     cbn in HD. destruct HD as [<-|[<-|[]]].
@@ -667,15 +764,15 @@ Section ArchFile.
       cbn [orb andb negb]. rewrite ?andb_false_r.
       destruct (mirror_binaries cfg), (find_component cfg c), (string_mem a (all_arches cfg)); reflexivity.
   Qed.
-End ArchFile.
+End ArchFile3.
 
 (* ---------------------------------------------------------------- <comp>/Contents-source<ext> *)
 Lemma contents_source_allowed cfg c f :
-  safe c = true -> c <> EmptyString ->
+  csafe c = true -> c <> EmptyString ->
   In f ["Contents-source"; "Contents-source.xz"; "Contents-source.gz"; "Contents-source.bz2"] ->
   allowed cfg (path2 c f) = mirror_source cfg && found cfg c.
 Proof.
-  intros Hcs Hcne Hf. pose proof (safe_good c Hcs Hcne) as Gc.
+  intros Hcs Hcne Hf. pose proof (csafe_good c Hcs Hcne) as Gc.
   assert (Gf : good_seg f) by (cbn in Hf; destruct Hf as [<-|[<-|[<-|[<-|[]]]]]; (split; [reflexivity|split; discriminate])).
   rewrite (allowed_path2 cfg c f Gc Gf). unfold allowed_body.
   change "/source/" with (String slash "source/"). unfold any_in at 1. cbn [existsb].
@@ -684,7 +781,7 @@ Proof.
   rewrite !(contains2_lead _ c f (proj1 Gc) (proj1 Gf)).
   assert (Hd : contains ".diff" (path2 c f) = false).
   { rewrite (contains2_noslash ".diff" c f eq_refl) by discriminate.
-    rewrite (contains_absent "."%char ".diff" c eq_refl (safe_no_dot c Hcs)).
+    rewrite (contains_absent "."%char ".diff" c eq_refl (csafe_no_char "."%char c Hcs eq_refl)).
     cbn in Hf. destruct Hf as [<-|[<-|[<-|[<-|[]]]]]; reflexivity. }
   rewrite Hd, andb_false_r. unfold found.
   cbn in Hf. destruct Hf as [<-|[<-|[<-|[<-|[]]]]];
@@ -713,8 +810,8 @@ Qed.
 (* ---------------------------------------------------------------- assembling: every standard kind *)
 Lemma names_ok_all cfg c k : names_ok cfg c k -> forall a', In a' (all_arches cfg) -> clean_arch a' = true.
 Proof. intros H a' Hin. apply (ok_arch_clean cfg c k H). unfold play. apply in_or_app. left. exact Hin. Qed.
-Lemma names_ok_comp cfg c k : names_ok cfg c k -> forall a', In a' (all_arches cfg) -> contains a' c = false.
-Proof. intros H a' Hin. apply (ok_arch_comp cfg c k H). unfold play. apply in_or_app. left. exact Hin. Qed.
+Lemma names_ok_comp cfg c k : names_ok cfg c k -> forall a', In a' (flat_map carches cfg) -> contains a' c = false.
+Proof. intros H a' Hin. exact (ok_arch_comp cfg c k H a' Hin). Qed.
 Lemma names_ok_kind cfg c k a : names_ok cfg c k -> kind_arch k = Some a ->
   clean_arch a = true /\ forall a', In a' (all_arches cfg) -> contains a' a = String.eqb a a'.
 Proof.
@@ -752,54 +849,118 @@ Proof. shape. Qed.
 Lemma exts_cases (P : string -> Prop) : P "" -> P ".xz" -> P ".gz" -> P ".bz2" -> forall e, In e exts -> P e.
 Proof. intros. cbn in *. repeat match goal with H : _ \/ _ |- _ => destruct H as [<-|H] end; try assumption. contradiction. Qed.
 
+Lemma allowed_is_struct_gen cfg c k e :
+  comp_like c -> contains "source" c = false ->
+  (forall a', In a' (all_arches cfg) -> clean_arch a' = true) ->
+  (forall a', In a' (flat_map carches cfg) -> contains a' c = false) ->
+  (forall a, kind_arch k = Some a ->
+     clean_arch a = true /\ forall a', In a' (all_arches cfg) -> contains a' a = String.eqb a a') ->
+  match k with
+  | KTranslation l => safe l = true /\ l <> EmptyString
+  | KIcons z => safe z = true /\ z <> EmptyString
+  | _ => True
+  end ->
+  (direct_child_kind k = true -> csafe c = true /\ c <> EmptyString) ->
+  In e exts ->
+  allowed cfg (render_kpath (std_path c k e)) = allowed_struct cfg c k.
+Proof.
+  intros Hc Hcsrc Hall Hcomp Hkind Haux Hdirect He.
+  destruct k as [a|a| | |l|a| |a|z|a]; cbn [allowed_struct].
+  - (* Packages *)
+    destruct (Hkind a eq_refl) as [Ha Hpair]. rewrite shape_packages.
+    apply binary_dir_allowed; try assumption.
+    revert e He. apply exts_cases; [exact plain_Packages|exact plain_Packages_xz|exact plain_Packages_gz|exact plain_Packages_bz2].
+  - (* binary Release *)
+    destruct (Hkind a eq_refl) as [Ha Hpair]. rewrite shape_binrelease.
+    apply binary_dir_allowed; try assumption.
+    revert e He. apply exts_cases; [exact plain_Release|exact plain_Release_xz|exact plain_Release_gz|exact plain_Release_bz2].
+  - (* Sources *)
+    rewrite shape_sources, (literal_dir_allowed cfg c "source" _ Hc); [reflexivity|cbn; tauto|].
+    apply plain_aux. revert e He.
+    apply exts_cases; [exact plain_Sources|exact plain_Sources_xz|exact plain_Sources_gz|exact plain_Sources_bz2].
+  - (* source Release *)
+    rewrite shape_srcrelease, (literal_dir_allowed cfg c "source" _ Hc); [reflexivity|cbn; tauto|].
+    apply plain_aux. revert e He.
+    apply exts_cases; [exact plain_Release|exact plain_Release_xz|exact plain_Release_gz|exact plain_Release_bz2].
+  - (* Translation *)
+    destruct Haux as [Hl _].
+    rewrite shape_translation, (literal_dir_allowed cfg c "i18n" _ Hc); [reflexivity|cbn; tauto|].
+    apply aux_named; [cbn; tauto|exact Hl|]. revert e He. apply exts_cases; cbn; tauto.
+  - (* Contents-<a> *)
+    destruct (Hkind a eq_refl) as [Ha Hpair]. destruct (Hdirect eq_refl) as [Hcs Hcne]. rewrite shape_contents.
+    apply (arch2_allowed cfg c a _ Hcs Hcne Hall Hpair).
+    apply arch_file_make; [cbn; tauto| |exact Ha]. revert e He. apply exts_cases; cbn; tauto.
+  - (* Contents-source *)
+    destruct (Hdirect eq_refl) as [Hcs Hcne].
+    rewrite shape_contentssrc. apply contents_source_allowed; [exact Hcs|exact Hcne|].
+    revert e He. apply exts_cases; cbn; tauto.
+  - (* dep11 Components *)
+    destruct (Hkind a eq_refl) as [Ha Hpair]. rewrite shape_dep11.
+    apply (arch3_allowed cfg c a _ Hc Hall Hpair); [|cbn; tauto].
+    apply arch_file_make; [cbn; tauto| |exact Ha]. revert e He. apply exts_cases; cbn; tauto.
+  - (* dep11 icons *)
+    destruct Haux as [Hz _].
+    rewrite shape_icons, (literal_dir_allowed cfg c "dep11" _ Hc); [reflexivity|cbn; tauto|].
+    apply aux_named; [cbn; tauto|exact Hz|]. revert e He. apply exts_cases; cbn; tauto.
+  - (* cnf Commands *)
+    destruct (Hkind a eq_refl) as [Ha Hpair]. rewrite shape_cnf.
+    apply (arch3_allowed cfg c a _ Hc Hall Hpair); [|cbn; tauto].
+    apply arch_file_make; [cbn; tauto| |exact Ha]. revert e He. apply exts_cases; cbn; tauto.
+Qed.
+
 Theorem allowed_is_struct cfg c k e :
   names_ok cfg c k -> In e exts ->
   allowed cfg (render_kpath (std_path c k e)) = allowed_struct cfg c k.
 Proof.
   intros Hok He.
   pose proof (ok_comp_safe cfg c k Hok) as Hcs. pose proof (ok_comp_ne cfg c k Hok) as Hcne.
-  pose proof (ok_comp_src cfg c k Hok) as Hcsrc.
-  pose proof (names_ok_all cfg c k Hok) as Hall. pose proof (names_ok_comp cfg c k Hok) as Hcomp.
-  destruct k as [a|a| | |l|a| |a|z|a]; cbn [allowed_struct].
-  - (* Packages *)
-    destruct (names_ok_kind cfg c _ a Hok eq_refl) as [Ha Hpair]. rewrite shape_packages.
-    apply binary_dir_allowed; try assumption.
-    revert e He. apply exts_cases; [exact plain_Packages|exact plain_Packages_xz|exact plain_Packages_gz|exact plain_Packages_bz2].
-  - (* binary Release *)
-    destruct (names_ok_kind cfg c _ a Hok eq_refl) as [Ha Hpair]. rewrite shape_binrelease.
-    apply binary_dir_allowed; try assumption.
-    revert e He. apply exts_cases; [exact plain_Release|exact plain_Release_xz|exact plain_Release_gz|exact plain_Release_bz2].
-  - (* Sources *)
-    rewrite shape_sources, (literal_dir_allowed cfg c "source" _ Hcs Hcne); [reflexivity|cbn; tauto|].
-    apply plain_aux. revert e He.
-    apply exts_cases; [exact plain_Sources|exact plain_Sources_xz|exact plain_Sources_gz|exact plain_Sources_bz2].
-  - (* source Release *)
-    rewrite shape_srcrelease, (literal_dir_allowed cfg c "source" _ Hcs Hcne); [reflexivity|cbn; tauto|].
-    apply plain_aux. revert e He.
-    apply exts_cases; [exact plain_Release|exact plain_Release_xz|exact plain_Release_gz|exact plain_Release_bz2].
-  - (* Translation *)
-    destruct (ok_aux cfg c _ Hok) as [Hl _].
-    rewrite shape_translation, (literal_dir_allowed cfg c "i18n" _ Hcs Hcne); [reflexivity|cbn; tauto|].
-    apply aux_named; [cbn; tauto|exact Hl|]. revert e He. apply exts_cases; cbn; tauto.
-  - (* Contents-<a> *)
-    destruct (names_ok_kind cfg c _ a Hok eq_refl) as [Ha Hpair]. rewrite shape_contents.
-    apply (arch2_allowed cfg c a _ Hcs Hcne Hall Hpair).
-    apply arch_file_make; [cbn; tauto| |exact Ha]. revert e He. apply exts_cases; cbn; tauto.
-  - (* Contents-source *)
-    rewrite shape_contentssrc. apply contents_source_allowed; [exact Hcs|exact Hcne|].
-    revert e He. apply exts_cases; cbn; tauto.
-  - (* dep11 Components *)
-    destruct (names_ok_kind cfg c _ a Hok eq_refl) as [Ha Hpair]. rewrite shape_dep11.
-    apply (arch3_allowed cfg c a _ Hcs Hcne Hall Hpair); [|cbn; tauto].
-    apply arch_file_make; [cbn; tauto| |exact Ha]. revert e He. apply exts_cases; cbn; tauto.
-  - (* dep11 icons *)
-    destruct (ok_aux cfg c _ Hok) as [Hz _].
-    rewrite shape_icons, (literal_dir_allowed cfg c "dep11" _ Hcs Hcne); [reflexivity|cbn; tauto|].
-    apply aux_named; [cbn; tauto|exact Hz|]. revert e He. apply exts_cases; cbn; tauto.
-  - (* cnf Commands *)
-    destruct (names_ok_kind cfg c _ a Hok eq_refl) as [Ha Hpair]. rewrite shape_cnf.
-    apply (arch3_allowed cfg c a _ Hcs Hcne Hall Hpair); [|cbn; tauto].
-    apply arch_file_make; [cbn; tauto| |exact Ha]. revert e He. apply exts_cases; cbn; tauto.
+  apply allowed_is_struct_gen; try assumption.
+  - apply comp_like_top; [assumption|assumption|exact (ok_comp_dashall cfg c k Hok)].
+  - exact (ok_comp_src cfg c k Hok).
+  - exact (names_ok_all cfg c k Hok).
+  - exact (names_ok_comp cfg c k Hok).
+  - intros a Hk. exact (names_ok_kind cfg c k a Hok Hk).
+  - pose proof (ok_aux cfg c k Hok) as Hx. destruct k; exact Hx || exact I.
+  - intros _. split; assumption.
+Qed.
+
+(* nested components (main/debian-installer): every kind that lives in a sub-directory *)
+Record names_ok_nested (cfg : list component) (c1 c2 : string) (k : kind) : Prop := {
+  okn_c1 : csafe c1 = true /\ c1 <> EmptyString;
+  okn_c2 : csafe c2 = true /\ c2 <> EmptyString;
+  okn_reserved : ~ In c2 ["source"; "cnf"; "dep11"; "i18n"];
+  okn_bin : String.prefix "binary-" c2 = false;
+  okn_dashall : contains "-all" c1 = false /\ contains "-all" c2 = false;
+  okn_src : contains "source" c1 = false /\ contains "source" c2 = false;
+  okn_kind : direct_child_kind k = false;
+  okn_arch_clean : forall a, In a (play cfg k) -> clean_arch a = true;
+  okn_arch_comp : forall a, In a (flat_map carches cfg) -> contains a c1 = false /\ contains a c2 = false;
+  okn_arch_pair : forall a b, In a (play cfg k) -> In b (play cfg k) -> contains a b = String.eqb b a;
+  okn_aux : match k with
+            | KTranslation l => safe l = true /\ l <> EmptyString
+            | KIcons z => safe z = true /\ z <> EmptyString
+            | _ => True
+            end }.
+
+Theorem allowed_is_struct_nested cfg c1 c2 k e :
+  names_ok_nested cfg c1 c2 k -> In e exts ->
+  allowed cfg (render_kpath (std_path (nested_comp c1 c2) k e)) = allowed_struct cfg (nested_comp c1 c2) k.
+Proof.
+  intros Hok He. destruct Hok as [[H1 N1] [H2 N2] Hres Hbin [Hd1 Hd2] [Hs1 Hs2] Hk Hclean Hcomp Hpair Haux].
+  assert (Hin : forall a', In a' (all_arches cfg) -> In a' (play cfg k))
+    by (intros a' Ha'; unfold play; apply in_or_app; left; exact Ha').
+  apply allowed_is_struct_gen; try assumption.
+  - apply comp_like_nested; assumption.
+  - unfold nested_comp. rewrite (contains_sep slash "source" c1 c2 eq_refl) by discriminate. rewrite Hs1, Hs2. reflexivity.
+  - intros a' Ha'. apply Hclean. apply Hin. exact Ha'.
+  - intros a' Ha'. destruct (Hcomp a' Ha') as [A B].
+    assert (Hia : In a' (all_arches cfg)).
+    { unfold all_arches. destruct (flat_map carches cfg) as [|y r] eqn:Ef; [destruct Ha'|]. apply in_or_app. left. exact Ha'. }
+    destruct (clean_safe a' (Hclean a' (Hin a' Hia))) as [Hsa Hna].
+    unfold nested_comp. rewrite (contains_sep slash a' c1 c2 (safe_no_slash a' Hsa) Hna), A, B. reflexivity.
+  - intros a Hka. assert (Hia : In a (play cfg k)) by (unfold play; rewrite Hka; apply in_or_app; right; left; reflexivity).
+    split; [apply Hclean; exact Hia|]. intros a' Ha'. apply Hpair; [apply Hin; exact Ha'|exact Hia].
+  - intros Hd. rewrite Hk in Hd. discriminate.
 Qed.
 
 (* ---------------------------------------------------------------- the structural predicate meets the specification *)
@@ -910,9 +1071,9 @@ Qed.
 (* a decidable form of the hypothesis *)
 Definition names_okb (cfg : list component) (c : string) (k : kind) : bool :=
   let pl := play cfg k in
-  safe c && negb (String.eqb c "") && negb (contains "source" c)
+  csafe c && negb (String.eqb c "") && negb (contains "-all" c) && negb (contains "source" c)
   && forallb clean_arch pl
-  && forallb (fun a => negb (contains a c)) pl
+  && forallb (fun a => negb (contains a c)) (flat_map carches cfg)
   && forallb (fun a => forallb (fun b => Bool.eqb (contains a b) (String.eqb b a)) pl) pl
   && match k with
      | KTranslation l => safe l && negb (String.eqb l "")
@@ -922,18 +1083,20 @@ Definition names_okb (cfg : list component) (c : string) (k : kind) : bool :=
 
 Lemma names_okb_ok cfg c k : names_okb cfg c k = true -> names_ok cfg c k.
 Proof.
-  unfold names_okb. intros H. repeat (apply andb_prop in H as [H ?]).
-  repeat match goal with Hf : forallb _ _ = true |- _ => rewrite forallb_forall in Hf end.
+  unfold names_okb. intros H.
+  apply andb_prop in H as [H Haux]. apply andb_prop in H as [H Hpair]. apply andb_prop in H as [H Hcomp].
+  apply andb_prop in H as [H Hclean]. apply andb_prop in H as [H Hsrc]. apply andb_prop in H as [H Hda].
+  apply andb_prop in H as [Hs Hne].
+  rewrite forallb_forall in Hclean, Hcomp, Hpair.
   constructor.
-  - exact H.
+  - exact Hs.
   - intros ->. discriminate.
-  - apply Bool.negb_true_iff. assumption.
-  - assumption.
-  - intros a Ha. apply Bool.negb_true_iff. auto.
-  - intros a b Ha Hb. match goal with Hp : forall x, In x _ -> forallb _ _ = true |- _ => specialize (Hp a Ha); rewrite forallb_forall in Hp; specialize (Hp b Hb) end.
-    apply Bool.eqb_prop. assumption.
-  - destruct k; try exact I; match goal with Hk : _ && _ = true |- _ => apply andb_prop in Hk as [Hk1 Hk2] end;
-      (split; [exact Hk1|intros ->; discriminate]).
+  - apply Bool.negb_true_iff. exact Hda.
+  - apply Bool.negb_true_iff. exact Hsrc.
+  - exact Hclean.
+  - intros a Ha. apply Bool.negb_true_iff. apply Hcomp. exact Ha.
+  - intros a b Ha Hb. specialize (Hpair a Ha). rewrite forallb_forall in Hpair. apply Bool.eqb_prop. apply Hpair. exact Hb.
+  - destruct k; try exact I; apply andb_prop in Haux as [A B]; (split; [exact A|intros ->; discriminate]).
 Qed.
 
 (* the statement in the form used by Props/C10.v *)
@@ -945,6 +1108,68 @@ Lemma select_spec_general_prop cfg c k e :
   (must_fetch cfg p && must_not_fetch cfg p = false).
 Proof.
   intros Hok He. cbn zeta. pose proof (select_spec_general cfg c k e (names_okb_ok cfg c k Hok) He) as H.
+  unfold spec_holds in H. apply andb_prop in H as [H H3]. apply andb_prop in H as [H1 H2].
+  apply Bool.negb_true_iff in H3. repeat split.
+  - intros Hm. rewrite Hm in H1. exact H1.
+  - intros Hm. rewrite Hm in H2. cbn in H2. apply Bool.negb_true_iff in H2. exact H2.
+  - exact H3.
+Qed.
+
+(* ---------------------------------------------------------------- nested components *)
+Theorem select_spec_nested cfg c1 c2 k e :
+  names_ok_nested cfg c1 c2 k -> In e exts -> spec_holds cfg (std_path (nested_comp c1 c2) k e) = true.
+Proof.
+  intros Hok He. unfold spec_holds. rewrite (allowed_is_struct_nested cfg c1 c2 k e Hok He).
+  exact (struct_spec cfg (nested_comp c1 c2) k e).
+Qed.
+
+Definition names_okb_nested (cfg : list component) (c1 c2 : string) (k : kind) : bool :=
+  let pl := play cfg k in
+  csafe c1 && negb (String.eqb c1 "") && csafe c2 && negb (String.eqb c2 "")
+  && negb (string_mem c2 ["source"; "cnf"; "dep11"; "i18n"])
+  && negb (String.prefix "binary-" c2) && negb (contains "-all" c1) && negb (contains "-all" c2)
+  && negb (contains "source" c1) && negb (contains "source" c2)
+  && negb (direct_child_kind k)
+  && forallb clean_arch pl
+  && forallb (fun a => negb (contains a c1) && negb (contains a c2)) (flat_map carches cfg)
+  && forallb (fun a => forallb (fun b => Bool.eqb (contains a b) (String.eqb b a)) pl) pl
+  && match k with
+     | KTranslation l => safe l && negb (String.eqb l "")
+     | KIcons z => safe z && negb (String.eqb z "")
+     | _ => true
+     end.
+
+Lemma names_okb_nested_ok cfg c1 c2 k : names_okb_nested cfg c1 c2 k = true -> names_ok_nested cfg c1 c2 k.
+Proof.
+  unfold names_okb_nested. intros H.
+  apply andb_prop in H as [H Haux]. apply andb_prop in H as [H Hpair]. apply andb_prop in H as [H Hcomp].
+  apply andb_prop in H as [H Hclean]. apply andb_prop in H as [H Hk]. apply andb_prop in H as [H Hs2].
+  apply andb_prop in H as [H Hs1]. apply andb_prop in H as [H Hd2]. apply andb_prop in H as [H Hd1].
+  apply andb_prop in H as [H Hbin]. apply andb_prop in H as [H Hres]. apply andb_prop in H as [H N2].
+  apply andb_prop in H as [H S2]. apply andb_prop in H as [S1 N1].
+  rewrite forallb_forall in Hclean, Hcomp, Hpair.
+  constructor.
+  - split; [exact S1|intros ->; discriminate].
+  - split; [exact S2|intros ->; discriminate].
+  - intros Hin. apply smem_In in Hin. rewrite Hin in Hres. discriminate.
+  - apply Bool.negb_true_iff. exact Hbin.
+  - split; apply Bool.negb_true_iff; assumption.
+  - split; apply Bool.negb_true_iff; assumption.
+  - apply Bool.negb_true_iff. exact Hk.
+  - exact Hclean.
+  - intros a Ha. specialize (Hcomp a Ha). apply andb_prop in Hcomp as [A B]. split; apply Bool.negb_true_iff; assumption.
+  - intros a b Ha Hb. specialize (Hpair a Ha). rewrite forallb_forall in Hpair. apply Bool.eqb_prop. apply Hpair. exact Hb.
+  - destruct k; try exact I; apply andb_prop in Haux as [A B]; (split; [exact A|intros ->; discriminate]).
+Qed.
+
+Lemma select_spec_nested_prop cfg c1 c2 k e :
+  names_okb_nested cfg c1 c2 k = true -> In e exts ->
+  let p := std_path (nested_comp c1 c2) k e in
+  (must_fetch cfg p = true -> allowed cfg (render_kpath p) = true) /\
+  (must_not_fetch cfg p = true -> allowed cfg (render_kpath p) = false) /\
+  (must_fetch cfg p && must_not_fetch cfg p = false).
+Proof.
+  intros Hok He. cbn zeta. pose proof (select_spec_nested cfg c1 c2 k e (names_okb_nested_ok cfg c1 c2 k Hok) He) as H.
   unfold spec_holds in H. apply andb_prop in H as [H H3]. apply andb_prop in H as [H1 H2].
   apply Bool.negb_true_iff in H3. repeat split.
   - intros Hm. rewrite Hm in H1. exact H1.
